@@ -5,6 +5,9 @@
 
 use std::path::PathBuf;
 
+#[global_allocator]
+static GLOBAL: ebv_core::allocstat::CountingAlloc = ebv_core::allocstat::CountingAlloc;
+
 use ebv_core::props::{registry, PropDef};
 use ebv_core::runner::*;
 
@@ -142,11 +145,12 @@ fn main() {
     }
     for (name, s) in &rc.stages {
         println!(
-            "  stage {:<28} {:>10} evaluations, {:>9} distinct non-trivial, {:>11} oracle checks{}",
+            "  stage {:<28} {:>10} evaluations, {:>9} distinct non-trivial, {:>11} oracle checks, {:>6.1}s{}",
             name,
             s.evaluations,
             s.distinct_nontrivial(),
             s.checks,
+            s.wall_s,
             if s.exhaustive { " (exhaustive)" } else { "" }
         );
     }
